@@ -112,6 +112,39 @@ fn build(args: BuildArgs) -> anyhow::Result<Option<usize>> {
     Ok(Some(tasks_run + work.tasks_run))
 }
 
+/// Verification hook: what `parse_args` makes of this process's own command line, as one line of text.
+/// (`-C` is carried out, `-d trace` opens trace.json: the caller runs this in a scratch directory.)
+#[cfg(n2_verif)]
+pub fn verif_parse_args() -> String {
+    fn hex(b: &[u8]) -> String {
+        if b.is_empty() {
+            return "-".to_string();
+        }
+        b.iter().map(|x| format!("{:02x}", x)).collect()
+    }
+    match parse_args() {
+        Err(_) => "err".to_string(),
+        Ok(Err(code)) => format!("exit {}", code),
+        Ok(Ok(a)) => format!(
+            "args compat={} adopt={} explain={} file={} targets={} j={} k={} v={}",
+            a.fake_ninja_compat as u8,
+            a.options.adopt as u8,
+            a.options.explain as u8,
+            match &a.build_filename {
+                None => "~".to_string(),
+                Some(f) => hex(f.as_bytes()),
+            },
+            a.targets.iter().map(|t| hex(t.as_bytes())).collect::<Vec<_>>().join(","),
+            a.options.parallelism,
+            match a.options.failures_left {
+                None => "~".to_string(),
+                Some(k) => k.to_string(),
+            },
+            a.verbose as u8
+        ),
+    }
+}
+
 /// Verification hook: run `build` with explicit arguments instead of `std::env::args`.
 #[cfg(n2_verif)]
 pub(crate) fn verif_build(
